@@ -552,7 +552,8 @@ func (c *kase) clauses(o *obs, fail func(class, what string)) {
 				fail(cls, fmt.Sprintf("server %s has a redirect route for %q but a request gets port %d; served ports (after the port rule): %v", t.name, name, p, keys(right)))
 			}
 		}
-		if !good {
+		// the existence claim is made only where the HTTP port carries no user route for d at all
+		if !good && len(cands) == len(httpSrvs) {
 			cls := "redirect:no-redirect-to-served-port"
 			switch {
 			case shadowed:
